@@ -147,8 +147,17 @@ def radix(repo: Repo, chk: Check) -> None:
     chk.result(bool(init) and all(s.node.value.value == 1 for s in init), "C09.radix", f"{f.key}:starts-at-1", init[0].where() if init else f.where,
                "the running extent starts at 1 for every operand")
     # coverage: after the schedule loops every dimension gets a stride for the size that remains (F-32)
-    cover = [s for s in main if any(isinstance(l, ast.For) and norm.contains(l.iter, T("enumerate($st)")) for l in s.loops)
-             and depends_on(fl.cone(s.node.args[1], s, inline=0), "$m.get_shape()[$d]") and not any(
+    def _shape_var(s_: Site) -> str | None:
+        """`for size, stride in zip(<memref>.get_shape(), strides)`: the name that stands for the dimension's size"""
+        for l in s_.loops:
+            if isinstance(l, ast.For) and isinstance(l.target, ast.Tuple) and len(l.target.elts) == 2 and all(isinstance(e, ast.Name) for e in l.target.elts):
+                for tpl, k in (("zip($m.get_shape(), $st)", 0), ("zip($st, $m.get_shape())", 1)):
+                    if norm.match(T(tpl), l.iter) is not None:
+                        return l.target.elts[k].id  # type: ignore[attr-defined]
+        return None
+
+    cover = [s for s in main if (any(isinstance(l, ast.For) and norm.contains(l.iter, T("enumerate($st)")) for l in s.loops)
+                                 and depends_on(fl.cone(s.node.args[1], s, inline=0), "$m.get_shape()[$d]") or _shape_var(s) is not None) and not any(
                  isinstance(l, ast.For) and norm.contains(l.iter, T("$sch.bounds[::-1]")) for l in s.loops)]
     okf = False
     wheref = fill[0].where() if fill else f.where
@@ -161,7 +170,9 @@ def radix(repo: Repo, chk: Check) -> None:
         if isinstance(core, ast.IfExp) and isinstance(core.orelse, ast.Constant) and core.orelse.value == 1:
             core = core.body
         m = norm.match(T("$sz // $cv"), core)
-        uses_assigned = m is not None and norm.contains(m["sz"], T("$m.get_shape()[$d]")) and any(
+        sv_ = _shape_var(s)
+        uses_assigned = m is not None and (norm.contains(m["sz"], T("$m.get_shape()[$d]")) or (sv_ is not None and any(
+            isinstance(n, ast.Name) and n.id == sv_ for n in ast.walk(m["sz"])) or norm.contains(m["sz"], T("__elem__($m.get_shape())")))) and any(
             isinstance(n, ast.Call) and callee_name(n) == "prod" and norm.contains(n, T("$x.bound")) for n in ast.walk(m["cv"])) and not isinstance(norm.primary(m["sz"]), ast.BinOp)
         guarded = any(fct.kind == "atom" and (norm.any_match(["$r > 1 or not len($x)", "$r > 1 or not $x", "not len($x) or $r > 1", "$r > 1", "$r != 1 or not len($x)"], fct.expr) is not None) for fct in s.facts)
         okf = okf or (uses_assigned and guarded)
@@ -189,31 +200,26 @@ def monotone(repo: Repo, chk: Check) -> None:
         "(a value in [0, c-1]); it returns the (possibly increased) argument",
         floor=2,
     )
-    n = 0
-    for s in fl.sites:
-        st = s.node
-        if st is not s.stmt or not s.reachable:
-            continue
-        stores = isinstance(st, (ast.Assign, ast.AugAssign)) and any(
-            isinstance(x, ast.Name) and x.id == cs and isinstance(x.ctx, ast.Store) for x in ast.walk(st))
-        if not stores:
-            continue
-        n += 1
-        ok = False
-        if isinstance(st, ast.AugAssign) and isinstance(st.op, ast.Add):
-            v = st.value
-            ok = isinstance(v, ast.BinOp) and isinstance(v.op, ast.Mod) and isinstance(v.right, ast.Constant) and isinstance(v.right.value, int) and v.right.value > 0
-        elif isinstance(st, ast.Assign):
-            m = norm.any_match(["$c + $x % $k", "$x % $k + $c"], st.value, {"c": cs})
-            ok = m is not None and isinstance(m["k"], ast.Constant) and isinstance(m["k"].value, int) and m["k"].value > 0
-        chk.result(ok, "C09.monotone", f"{f.key}:update#{n}", s.where(), "the update adds a non-negative remainder",
-                   f"`{ast.unparse(st)[:100]}` can decrease the running extent (the added value is not of the form (..) % c): the next dimension "
+    # judged on what is returned, as an expression over the extent that was passed in (updates of the local are folded into it by the walker):
+    # the argument itself, or the argument plus a remainder modulo a positive literal
+    from sa.flow import expand as _expand
+
+    rets = [s for s in fl.stmts(ast.Return) if s.reachable and s.node.value is not None]
+    if not rets:
+        raise AnalysisError(f"{f.where}: no return of the running extent found")
+    for n, s in enumerate(rets, 1):
+        bad = None
+        for alt in s.state.alts:
+            v = norm.primary(_expand(s.node.value, {k: x for k, x in alt.env.items() if k not in s.shadow}))
+            if isinstance(v, ast.Name) and v.id == cs:
+                continue
+            m = norm.any_match(["$c + $x % $k", "$x % $k + $c"], v, {"c": cs})
+            if m is not None and isinstance(m["k"], ast.Constant) and isinstance(m["k"].value, int) and m["k"].value > 0:
+                continue
+            bad = ast.unparse(v)
+        chk.result(bad is None, "C09.monotone", f"{f.key}:return#{n}", s.where(), "the result is the extent passed in, or that extent plus a non-negative remainder",
+                   f"`return {bad[:100] if bad else ''}` can be smaller than the running extent that was passed in (it is not `extent + (..) % c`): the next dimension "
                    "overlaps the previous one")
-    if n == 0:
-        raise AnalysisError(f"{f.where}: no update of the running extent found")
-    rets = [s for s in fl.stmts(ast.Return) if s.reachable]
-    chk.result(all(ast.unparse(s.node.value) == cs for s in rets) and bool(rets), "C09.monotone", f"{f.key}:returns-extent", f.where,
-               "the function returns the (possibly increased) running extent")
     # the caller assigns the result back to the running extent
     g, gfl = flow_of(repo, chk, LAYOUT, "AddCyclicMemoryLayout.match_and_rewrite")
     calls = [s for s in gfl.calls("ensure_access_granularity") if s.reachable]
